@@ -3,6 +3,7 @@
 spec:   spec/MediaTypesOps.tla  score tuple, Quality, BestIdx + the documented rule stated declaratively
         spec/MediaTypes.tla     negotiation cases as a state machine + invariants (C11a)
         spec/Handlers.tla       handler mapping + memoising resolver + mutation operations (C11b)
+        spec/HandlersError.tla  the same mapping histories observed at error rendering (OfferedFollowsMapping) + MC_ / Trace
         spec/MC_MediaTypes.tla, spec/MC_Handlers.tla          bounded instances / behaviour export
         spec/MediaTypesTrace.tla, spec/HandlersTrace.tla      trace judges
 legs:   M  exhaustive TLC checks of both designs (operational fold == documented rule; memo table
@@ -778,10 +779,11 @@ def leg_errors(ctx):
     rw = ctx.tlc('MC_HandlersError', 'MC_HandlersErrorW.cfg', must_hold=False, count=False, timeout=600, workers=4)
     if not rw.violated:
         raise MachineryError('wrong-design switch MemoiseOffered=TRUE did not violate OfferedFollowsMapping')
+    ctx.progress('error-rendering leg M done')
     # ---- A: TLC-simulated histories on real apps
     ra = ctx.tlc('MC_HandlersError', 'MC_HandlersErrorSim.cfg', simulate={'num': ctx.pick(60, 600)}, depth=8, seed=ctx.seed + 13, workers=4,
                  timeout=900, count=False)
-    behs = list({digest(j): j for j in ra.json if 'ev' in j}.values())[:ctx.pick(2500, 30000)]
+    behs = list({digest(j): j for j in ra.json if 'ev' in j}.values())[:ctx.pick(1200, 30000)]
     n = 0
     for bi, b in enumerate(behs):
         evs = b['ev']
@@ -807,6 +809,7 @@ def leg_errors(ctx):
         ctx.case(case, nontrivial=nontrivial, key=('err', digest(evs), stack))
         n += 1
     ctx.traces_validated += n
+    ctx.progress('error-rendering leg A done: %d histories' % n)
     # ---- B: directed + random histories, judged by TLC
     J, AX, TX, Y, Z = ({'t': 'a', 's': 'x', 'pm': []}, {'t': 'a', 's': 'm', 'pm': []}, {'t': 'b', 's': 'm', 'pm': []},
                        {'t': 'a', 's': 'y', 'pm': []}, {'t': 'c', 's': 'z', 'pm': []})
@@ -815,7 +818,7 @@ def leg_errors(ctx):
     def R(t, q):
         return {'t': t['t'], 's': t['s'], 'pm': list(t['pm']), 'q': q}
     traces, cases = [], []
-    for i in range(ctx.pick(400, 8000)):
+    for i in range(ctx.pick(300, 8000)):
         hid = itertools.count(11)
         init = [{'k': rng.choice(keys[:3]), 'h': next(hid)} for _ in range(1)]
         if rng.random() < 0.6 and init[0]['k'] != J:
@@ -996,6 +999,8 @@ def run(ctx):
                        'Handlers.__ior__ and copy() of an emptied mapping are excluded (not in the property)',
                        'a bulk update() that fails part-way (raising iterable, malformed pair) leaves its prefix in the mapping; '
                        'the mapping the object itself reports afterwards is the current mapping',
+                       'error rendering: the default error serializer on one app per stack whose resp_options.media_handlers is edited in place '
+                       'between errors; Accept headers without +json/+xml suffixes (the suffix heuristic is C04 territory)',
                        'resolutions are observed through Request.get_media, Response.render_body, get_param_as_json '
                        '(the only raise_not_found=False path reachable with arbitrary mappings) and whole requests']
     leg_m(ctx)
